@@ -21,6 +21,12 @@ struct Live {
     ver: u64,
     /// a second handle kept alive (neither used nor dropped) while another stream is worked on
     parked: Option<(cfb::Stream<SharedBuf>, String)>,
+    /// the CompoundFile was dropped / consumed while handles are still alive
+    gone: bool,
+}
+
+fn is_handle_op(name: &str) -> bool {
+    matches!(name, "read" | "read_to_end" | "fill_buf" | "consume" | "write" | "write_all" | "seek" | "position" | "set_len" | "flush" | "len" | "close" | "park" | "unpark")
 }
 
 fn ok(v: Value) -> Value {
@@ -87,7 +93,7 @@ fn setup(hist: &Value, dict: &Dict) -> io::Result<Live> {
         c.chunks = hist["chunks"].as_array().map(|a| a.iter().map(|x| x.as_i64().unwrap()).collect()).unwrap_or_default();
     }
     let maxbuf = hist["maxbuf"].as_u64().map(|n| n as usize);
-    Ok(Live { buf, cf: None, h: None, hname: String::new(), last_fill: 0, maxbuf, ver: hist["ver"].as_u64().unwrap_or(4), parked: None })
+    Ok(Live { buf, cf: None, h: None, hname: String::new(), last_fill: 0, maxbuf, ver: hist["ver"].as_u64().unwrap_or(4), parked: None, gone: false })
 }
 
 fn exec(live: &mut Live, op: &Value, dict: &Dict) -> Value {
@@ -97,6 +103,7 @@ fn exec(live: &mut Live, op: &Value, dict: &Dict) -> Value {
         "open" => {
             live.h = None;
             live.cf = None;
+            live.gone = false;
             let mut o = cfb::OpenOptions::new();
             if let Some(n) = live.maxbuf {
                 o = o.max_buffer_size(n);
@@ -113,7 +120,21 @@ fn exec(live: &mut Live, op: &Value, dict: &Dict) -> Value {
                 Err(e) => res_err(e),
             }
         }
-        _ if live.cf.is_none() => json!({"k": "err", "e": "NoFile"}),
+        // the CompoundFile goes away while the handle (and a parked one) stay alive:
+        // dropped, or consumed by into_inner
+        "drop_cf" => match live.cf.take() {
+            Some(cf) => {
+                if op["how"].as_str() == Some("into_inner") {
+                    let _ = cf.into_inner();
+                } else {
+                    drop(cf);
+                }
+                live.gone = true;
+                ok(json!("unit"))
+            }
+            None => json!({"k": "err", "e": "NoFile"}),
+        },
+        _ if live.cf.is_none() && !(live.gone && is_handle_op(name)) => json!({"k": "err", "e": "NoFile"}),
         "walk" => {
             let cf = live.cf.as_ref().unwrap();
             ok(Value::Array(cf.walk().map(|e| json!({"n": if e.is_root() { "Root Entry".to_string() } else { dict.id_of(e.name()) }, "l": if e.is_stream() { e.len() } else { 0 }})).collect()))
